@@ -233,7 +233,8 @@ def run(eng: Engine, ck: Check):
                 def bounded_iter(e: ast.AST, depth=0) -> bool:
                     """range(..), the field tuple, the subclass list, or a generator / comprehension / filter / enumerate .. over those"""
                     s_ = unparse(e)
-                    if (isinstance(e, ast.Call) and call_name(e) == 'range') or s_.endswith('_CACHED_FIELDS') or s_.endswith('__subclasses__()'):
+                    if (isinstance(e, ast.Call) and call_name(e) == 'range') or s_.endswith('_CACHED_FIELDS') or s_.endswith('__subclasses__()') or \
+                            (isinstance(e, ast.Name) and local_mirrors_attr(f, e.id, '_CACHED_FIELDS')):
                         return True
                     if isinstance(e, (ast.GeneratorExp, ast.ListComp, ast.SetComp)):
                         return all(bounded_iter(g_.iter, depth + 1) for g_ in e.generators)
